@@ -124,6 +124,7 @@ Definition li_canonicalize (s : bytes) : res bytes :=
 
 (* matches *)
 Definition is_none {A} (o : option A) : bool := match o with None => true | _ => false end.
+Definition is_some {A} (o : option A) : bool := match o with Some _ => true | None => false end.
 Definition opt_matches (a b : option bytes) (ra rb : bool) : bool :=
   (ra && is_none a) || (rb && is_none b) || obeqb a b.
 Fixpoint lbeqb (a b : list bytes) : bool :=
